@@ -69,6 +69,11 @@ def expected_edges(model, entry_toks=None):
                     # its entries; a call to another block of the function
                     # may or may not be given return edges
                     required = entry_toks is None or tgt[1] in entry_toks
+                    lt = labels.get(t.target)
+                    if lt is not None and lt[1].toks[lt[2]].origin != "orig":
+                        # a call to a label defined by a patch: whether the
+                        # enclosing function counts as called is left open
+                        required = False
                     if f is not None and nxt_code:
                         calls_by_func.setdefault(f, []).append((nxt.id, required))
                     elif f is not None:
